@@ -1,4 +1,942 @@
-use simcore::Plan;
-pub fn generate(seed: u64, run: u64, focus: &str, _thorough: bool) -> Plan {
-    Plan { family: "wire".into(), focus: focus.into(), seed, run, faults: Default::default(), ticks: 0, steps: vec![] }
+//! Generator for the `wire` family: parties exchanging keys, signatures and batch entries over a
+//! simulated network (SimNet) with an in-path adversary. The network, its delays, losses,
+//! duplications, reorderings and Byzantine rewrites are simulated here, from the one PRNG; the
+//! resulting delivery sequence is the explicit plan the executor replays.
+
+use crate::dict;
+use crate::env::{Obs, Out};
+use crate::wire::ModelW;
+use refmodel::ed::{self, Pt};
+use refmodel::eddsa::{self, RealSha512, H512};
+use refmodel::{arr32, sc};
+use simcore::{bump, Counters, Plan, Prng, Rng, Sc, Step, B};
+use std::cmp::Reverse;
+use std::collections::BinaryHeap;
+
+#[derive(Clone, Debug)]
+enum Msg {
+    /// X25519 public key of `from` travelling to `to`; honest = unmodified
+    Pub { from: u8, to: u8, bytes: [u8; 32], honest: bool },
+    /// request to signer
+    SignReq { s: u8, m: Vec<u8>, mode: u8, ctx: Option<Vec<u8>> },
+    /// a (key, message, signature) triple travelling to a verifier
+    Triple { mode: u8, key: Vec<u8>, m: Vec<u8>, sig: Vec<u8>, ctx: Option<Vec<u8>>, chosen: Option<[u8; 64]> },
+    /// a triple travelling to batch queue q
+    Entry { q: u8, key: Vec<u8>, m: Vec<u8>, sig: Vec<u8> },
+    Flush { q: u8 },
+}
+
+struct W<'a> {
+    rng: Prng,
+    m: ModelW,
+    steps: Vec<Step>,
+    c: Counters,
+    fault_pct: u64,
+    disp_policy: u64,
+    thorough: bool,
+    focus: &'a str,
+    // SimNet
+    heap: BinaryHeap<Reverse<(u64, u64)>>,
+    msgs: Vec<Option<Msg>>,
+    now: u64,
+    // what the adversary has seen (for swaps / replays)
+    seen_triples: Vec<(Vec<u8>, Vec<u8>, Vec<u8>)>,
+    signer_pubs: Vec<Option<[u8; 32]>>,
+    signer_seeds: Vec<Option<[u8; 32]>>,
+    xpubs: Vec<Option<[u8; 32]>>,
+}
+
+fn obs_get<'o>(o: &'o Obs, label: &str) -> Option<&'o Vec<u8>> {
+    o.0.iter().find(|(l, _)| *l == label).map(|(_, v)| v)
+}
+
+impl<'a> W<'a> {
+    fn emit(&mut self, st: Step) -> Option<Obs> {
+        let out = self.m.apply(&st);
+        self.steps.push(st);
+        match out {
+            Out::Obs(o) => Some(o),
+            Out::Skip => None,
+        }
+    }
+    fn faulty(&mut self) -> bool {
+        self.fault_pct > 0 && self.rng.below(100) < self.fault_pct
+    }
+    fn disp(&mut self) -> u8 {
+        match self.disp_policy {
+            4 => self.rng.below(4) as u8,
+            p => p as u8,
+        }
+    }
+
+    // ------------------------------------------------------------ SimNet
+    fn post(&mut self, delay: u64, msg: Msg) {
+        let id = self.msgs.len() as u64;
+        self.msgs.push(Some(msg));
+        self.heap.push(Reverse((self.now + delay, id)));
+    }
+
+    /// hand a message to the network: it may be dropped, duplicated, delayed past later messages
+    fn send(&mut self, msg: Msg) {
+        let base = 1 + self.rng.below(4);
+        if self.faulty() {
+            match self.rng.below(4) {
+                0 => {
+                    bump(&mut self.c, "net:drop");
+                    return;
+                }
+                1 => {
+                    bump(&mut self.c, "net:duplicate");
+                    let d2 = base + 1 + self.rng.below(30);
+                    self.post(base, msg.clone());
+                    self.post(d2, msg);
+                    return;
+                }
+                2 => {
+                    bump(&mut self.c, "net:delay_reorder");
+                    let d = base + 5 + self.rng.below(60);
+                    self.post(d, msg);
+                    return;
+                }
+                _ => {
+                    bump(&mut self.c, "net:replay_later");
+                    let d2 = 40 + self.rng.below(100);
+                    self.post(base, msg.clone());
+                    self.post(d2, msg);
+                    return;
+                }
+            }
+        }
+        bump(&mut self.c, "net:delivered_plain");
+        self.post(base, msg);
+    }
+
+    fn pump(&mut self, max_steps: usize) {
+        while let Some(Reverse((t, id))) = self.heap.pop() {
+            if self.steps.len() >= max_steps {
+                break;
+            }
+            // discrete-event clock: jump to the next event
+            self.now = self.now.max(t);
+            let msg = match self.msgs[id as usize].clone() {
+                Some(m) => m,
+                None => continue,
+            };
+            self.deliver(msg);
+        }
+    }
+
+    fn deliver(&mut self, msg: Msg) {
+        match msg {
+            Msg::Pub { from, to, bytes, honest } => {
+                self.emit(Step::XDh { p: to, pk: B(bytes.to_vec()), peer: if honest { Some(from) } else { None } });
+            }
+            Msg::SignReq { s, m, mode, ctx } => {
+                let ch = self.chunks();
+                let o = self.emit(Step::Sign { s, m: B(m.clone()), mode, ctx: ctx.clone().map(B), ch });
+                let sig = o.as_ref().and_then(|o| obs_get(o, "sig")).cloned();
+                let key = self.signer_pubs[s as usize % 8];
+                if let (Some(sig), Some(key)) = (sig, key) {
+                    self.forward(key, m, sig, mode, ctx);
+                }
+            }
+            Msg::Triple { mode, key, m, sig, ctx, chosen } => {
+                let (ch, d) = (self.chunks(), self.disp());
+                self.emit(Step::Ver { mode, key: B(key), m: B(m), sig: B(sig), ctx: ctx.map(B), ch, chosen: chosen.map(|c| B(c.to_vec())), d });
+            }
+            Msg::Entry { q, key, m, sig } => {
+                self.emit(Step::BQ { q, m: B(m), sig: B(sig), key: B(key) });
+            }
+            Msg::Flush { q } => self.flush(q, true),
+        }
+    }
+
+    fn chunks(&mut self) -> Vec<u16> {
+        match self.rng.below(5) {
+            0 => vec![],
+            1 => vec![1],
+            2 => vec![0, 1, 127, 0, 129],
+            3 => {
+                let n = 1 + self.rng.below(4) as usize;
+                (0..n).map(|_| self.rng.below(200) as u16).collect()
+            }
+            _ => vec![64, 64, 1, 63],
+        }
+    }
+
+    // ------------------------------------------------------------ Ed25519 flows
+    fn msg_len(&mut self) -> usize {
+        let edges = [0usize, 0, 1, 2, 31, 32, 63, 64, 65, 111, 112, 113, 127, 128, 129, 255, 256];
+        match self.rng.below(10) {
+            0..=5 => edges[self.rng.below(edges.len() as u64) as usize],
+            6..=8 => self.rng.below(300) as usize,
+            _ => self.rng.below(if self.thorough { 4096 } else { 1200 }) as usize,
+        }
+    }
+
+    fn ctx_choice(&mut self) -> Option<Vec<u8>> {
+        let lens = [0usize, 0, 1, 31, 32, 254, 255, 255, 256, 300, 1000];
+        if self.rng.chance(1, 4) {
+            None
+        } else {
+            let n = lens[self.rng.below(lens.len() as u64) as usize];
+            if n > 255 {
+                bump(&mut self.c, "probe:context_longer_than_255");
+            }
+            if n == 255 {
+                bump(&mut self.c, "probe:context_exactly_255");
+            }
+            Some(self.rng.bytes(n))
+        }
+    }
+
+    fn rng_spec(&mut self) -> Rng {
+        if self.faulty() {
+            match self.rng.below(4) {
+                0 => {
+                    bump(&mut self.c, "fault:rng_stuck_zero");
+                    Rng { b: B(vec![0]), mode: 1 }
+                }
+                1 => {
+                    bump(&mut self.c, "fault:rng_stuck_ones");
+                    Rng { b: B(vec![0xff]), mode: 2 }
+                }
+                2 => {
+                    bump(&mut self.c, "fault:rng_short_period");
+                    let n = 1 + self.rng.below(31) as usize;
+                    Rng { b: B(self.rng.bytes(n)), mode: 3 }
+                }
+                _ => {
+                    bump(&mut self.c, "fault:rng_repeated_block");
+                    // same block for every party that draws this fault in this run
+                    let mut r2 = Prng::new(self.disp_policy ^ 0x5eed);
+                    Rng { b: B(r2.bytes(32)), mode: 3 }
+                }
+            }
+        } else {
+            let n = 32 + self.rng.below(33) as usize;
+            Rng { b: B(self.rng.bytes(n)), mode: 0 }
+        }
+    }
+
+    fn new_signer(&mut self, s: u8) {
+        let how = self.rng.below(6) as u8;
+        let seed = self.rng.arr32();
+        let (b, rng): (Vec<u8>, Option<Rng>) = match how {
+            0 => (vec![], Some(self.rng_spec())),
+            1 | 3 => {
+                let mut v = seed.to_vec();
+                if how == 3 && self.faulty() {
+                    bump(&mut self.c, "fault:truncate");
+                    v.truncate(self.rng.below(32) as usize);
+                }
+                (v, None)
+            }
+            2 => {
+                let mut v = seed.to_vec();
+                v.extend_from_slice(&eddsa::public_key(&seed));
+                if self.faulty() {
+                    // key store returned a damaged record: a flipped bit in either half
+                    bump(&mut self.c, "fault:keystore_bitflip");
+                    let i = self.rng.below(512) as usize;
+                    v[i / 8] ^= 1 << (i % 8);
+                    if i >= 256 {
+                        bump(&mut self.c, "probe:keypair_public_half_damaged");
+                    }
+                }
+                (v, None)
+            }
+            _ => {
+                let mut v = self.rng.bytes(64);
+                if how == 5 && self.faulty() {
+                    bump(&mut self.c, "fault:truncate");
+                    v.truncate(self.rng.below(64) as usize);
+                }
+                (v, None)
+            }
+        };
+        let o = self.emit(Step::SKey { s, how, b: B(b), rng });
+        let pk = o.as_ref().and_then(|o| obs_get(o, "pub")).map(|v| arr32(v));
+        let sd = o.as_ref().and_then(|o| obs_get(o, "seed")).map(|v| arr32(v));
+        self.signer_pubs[s as usize % 8] = pk;
+        self.signer_seeds[s as usize % 8] = sd;
+    }
+
+    /// a produced signature goes to verifiers: one undamaged path, one through the adversary, and a batch queue
+    fn forward(&mut self, key: [u8; 32], m: Vec<u8>, sig: Vec<u8>, mode: u8, ctx: Option<Vec<u8>>) {
+        let prehashed = !matches!(mode % 6, 0 | 1 | 4);
+        let vmodes: &[u8] = if prehashed { &[3, 4, 6, 8, 10] } else { &[0, 1, 2, 5, 7] };
+        let vctx = if prehashed { Some(ctx.clone().unwrap_or_default()) } else { None };
+        self.seen_triples.push((key.to_vec(), m.clone(), sig.clone()));
+        // undamaged
+        let vm = vmodes[self.rng.below(vmodes.len() as u64) as usize];
+        let c2 = if vm == 10 && vctx.as_ref().map(|c| c.is_empty()).unwrap_or(false) && self.rng.coin() { None } else { vctx.clone() };
+        self.send(Msg::Triple { mode: vm, key: key.to_vec(), m: m.clone(), sig: sig.clone(), ctx: c2, chosen: None });
+        // cross-protocol: a pure signature presented as prehashed and vice versa
+        if self.rng.chance(1, 8) {
+            bump(&mut self.c, "fault:cross_protocol");
+            let other: &[u8] = if prehashed { &[0, 2, 5] } else { &[3, 4, 6] };
+            let om = other[self.rng.below(other.len() as u64) as usize];
+            self.send(Msg::Triple { mode: om, key: key.to_vec(), m: m.clone(), sig: sig.clone(), ctx: if prehashed { None } else { Some(vec![]) }, chosen: None });
+        }
+        // through the adversary
+        if self.fault_pct > 0 && self.rng.chance(1, 2) {
+            let (k2, m2, s2, c2) = self.damage(key.to_vec(), m.clone(), sig.clone(), vctx.clone());
+            let vm = vmodes[self.rng.below(vmodes.len() as u64) as usize];
+            self.send(Msg::Triple { mode: vm, key: k2, m: m2, sig: s2, ctx: c2, chosen: None });
+        }
+        // batch path (pure Ed25519 only)
+        if !prehashed && self.rng.chance(2, 3) {
+            let q = self.rng.below(2) as u8;
+            self.send(Msg::Entry { q, key: key.to_vec(), m, sig });
+            if self.rng.chance(1, 4) {
+                self.send(Msg::Flush { q });
+            }
+        }
+    }
+
+    /// single-field damage of an honest triple
+    fn damage(&mut self, mut key: Vec<u8>, mut m: Vec<u8>, mut sig: Vec<u8>, mut ctx: Option<Vec<u8>>) -> (Vec<u8>, Vec<u8>, Vec<u8>, Option<Vec<u8>>) {
+        match self.rng.below(12) {
+            0 => {
+                bump(&mut self.c, "fault:bitflip_key");
+                let i = self.rng.below(256) as usize;
+                key[i / 8] ^= 1 << (i % 8);
+            }
+            1 => {
+                bump(&mut self.c, "fault:bitflip_msg");
+                if m.is_empty() {
+                    m.push(0);
+                } else {
+                    let i = self.rng.below(m.len() as u64 * 8) as usize;
+                    m[i / 8] ^= 1 << (i % 8);
+                }
+            }
+            2 => {
+                bump(&mut self.c, "fault:bitflip_R");
+                let i = self.rng.below(256) as usize;
+                sig[i / 8] ^= 1 << (i % 8);
+            }
+            3 => {
+                bump(&mut self.c, "fault:bitflip_S");
+                let i = 256 + self.rng.below(256) as usize;
+                sig[i / 8] ^= 1 << (i % 8);
+            }
+            4 => {
+                bump(&mut self.c, "fault:S_plus_jl");
+                let j = 1 + self.rng.below(15);
+                let s = refmodel::U256::from_le_bytes(&arr32(&sig[32..]));
+                let (jl, hi) = sc::l().mul_small(j);
+                let (t, carry) = s.add_carry(&jl);
+                if hi == 0 && !carry {
+                    sig[32..].copy_from_slice(&t.to_le_bytes());
+                    if t.to_le_bytes()[31] & 224 == 0 {
+                        bump(&mut self.c, "probe:S_plus_l_below_2^253");
+                    }
+                }
+            }
+            5 => {
+                bump(&mut self.c, "fault:other_key");
+                let others: Vec<[u8; 32]> = self.signer_pubs.iter().flatten().cloned().collect();
+                if !others.is_empty() {
+                    key = others[self.rng.below(others.len() as u64) as usize].to_vec();
+                }
+            }
+            6 => {
+                bump(&mut self.c, "fault:context_changed");
+                ctx = match ctx {
+                    Some(c) if !c.is_empty() => {
+                        let mut c2 = c.clone();
+                        c2[0] ^= 1;
+                        Some(c2)
+                    }
+                    Some(_) => Some(vec![0]),
+                    None => None,
+                };
+                if ctx.is_none() {
+                    m.push(1);
+                }
+            }
+            7 => {
+                bump(&mut self.c, "fault:swap_fields");
+                if let Some((_, _, s2)) = self.seen_triples.get(self.rng.below(self.seen_triples.len().max(1) as u64) as usize).cloned() {
+                    if self.rng.coin() {
+                        sig[..32].copy_from_slice(&s2[..32]);
+                    } else {
+                        sig[32..].copy_from_slice(&s2[32..]);
+                    }
+                }
+            }
+            8 => {
+                bump(&mut self.c, "fault:truncate");
+                if self.rng.coin() {
+                    sig.truncate(self.rng.below(64) as usize);
+                } else {
+                    key.truncate(self.rng.below(32) as usize);
+                }
+            }
+            9 => {
+                bump(&mut self.c, "fault:extend");
+                if self.rng.coin() {
+                    sig.push(0);
+                } else {
+                    key.push(0);
+                }
+            }
+            10 => {
+                bump(&mut self.c, "fault:key_plus_torsion");
+                if let Some(a) = Pt::decode(&arr32(&key)) {
+                    key = a.add(&ed::torsion()[1 + self.rng.below(7) as usize]).encode().to_vec();
+                }
+            }
+            _ => {
+                bump(&mut self.c, "fault:S_top_bits");
+                sig[63] |= [0x20u8, 0x40, 0x80, 0xe0][self.rng.below(4) as usize];
+            }
+        }
+        (key, m, sig, ctx)
+    }
+
+    /// Byzantine constructions aimed at the accept side of the small-order / mixed-order classes.
+    /// Whatever comes out, the reference predicate decides the expected verdict.
+    fn byzantine(&mut self) {
+        let t = ed::torsion();
+        let b = ed::basepoint();
+        let kind = self.rng.below(7);
+        let prehashed = self.rng.chance(1, 4);
+        let cl = self.rng.below(4) as usize;
+        let ctx: Option<Vec<u8>> = if prehashed { Some(self.rng.bytes(cl)) } else { None };
+        let mlen = self.rng.below(40) as usize;
+        let mut m = self.rng.bytes(mlen);
+        let seed = self.rng.arr32();
+        let (a_cl, prefix) = eddsa::expand(&seed);
+        let a_sc = refmodel::Sc::from_bytes_mod_order(&a_cl);
+        let a_pt = b.mul_le(&a_cl);
+        let hash_in = |m: &Vec<u8>| -> Vec<u8> {
+            if prehashed {
+                eddsa::sha512(&[m]).to_vec()
+            } else {
+                m.clone()
+            }
+        };
+        let dom: Vec<u8> = match &ctx {
+            Some(c) => {
+                let mut v = eddsa::DOM2_PREFIX.to_vec();
+                v.push(1);
+                v.push(c.len() as u8);
+                v.extend_from_slice(c);
+                v
+            }
+            None => vec![],
+        };
+        let challenge = |rb: &[u8; 32], key: &[u8; 32], hm: &[u8]| -> refmodel::Sc { refmodel::Sc::from_wide(&RealSha512.hash(&[&dom, rb, key, hm])) };
+        let (key, sig): ([u8; 32], [u8; 64]) = match kind {
+            0 | 1 => {
+                // small-order key in one of its encodings, R = [r]B - T', S = r: accepted iff [k]A = T'
+                bump(&mut self.c, "fault:byz_small_order_key");
+                let j = self.rng.below(8) as usize;
+                let mut key = t[j].encode();
+                if t[j].y.0.lt(&refmodel::U256::from_u64(19)) && self.rng.coin() {
+                    bump(&mut self.c, "fault:byz_noncanonical_key");
+                    key = dict::p_plus(t[j].y.0 .0[0]);
+                    if t[j].x.is_negative() {
+                        key[31] |= 0x80;
+                    }
+                } else if t[j].x.is_zero() && self.rng.coin() {
+                    key[31] |= 0x80;
+                }
+                let mut out = ([0u8; 32], [0u8; 64]);
+                for _try in 0..24 {
+                    let r = refmodel::Sc::from_bytes_mod_order(&self.rng.arr32());
+                    let guess = t[self.rng.below(8) as usize];
+                    let rp = b.mul_le(&r.to_bytes()).sub(&guess);
+                    let rb = rp.encode();
+                    let k = challenge(&rb, &key, &hash_in(&m));
+                    let mut sg = [0u8; 64];
+                    sg[..32].copy_from_slice(&rb);
+                    sg[32..].copy_from_slice(&r.to_bytes());
+                    out = (key, sg);
+                    if t[j].mul_le(&k.to_bytes()) == guess {
+                        bump(&mut self.c, "probe:byz_small_order_equation_holds");
+                        break;
+                    }
+                }
+                out
+            }
+            2 | 3 => {
+                // mixed-order key A' = A + T signed with the honest secret: accepted iff [k]T = 0
+                bump(&mut self.c, "fault:byz_mixed_order_key");
+                let tj = t[1 + self.rng.below(7) as usize];
+                let key = a_pt.add(&tj).encode();
+                let mut out = (key, [0u8; 64]);
+                for _try in 0..16 {
+                    let mut h = RealSha512;
+                    let sg = eddsa::sign_expanded(&mut h, &a_sc, &prefix, &key, &hash_in(&m), ctx.as_deref());
+                    out = (key, sg);
+                    let k = challenge(&arr32(&sg[..32]), &key, &hash_in(&m));
+                    if tj.mul_le(&k.to_bytes()).is_identity() {
+                        bump(&mut self.c, "probe:byz_mixed_order_k_kills_torsion");
+                        break;
+                    }
+                    m.push(self.rng.below(256) as u8);
+                }
+                out
+            }
+            4 => {
+                // R carries a torsion component; the key is honest or mixed so that it may cancel
+                bump(&mut self.c, "fault:byz_torsion_R");
+                let mixed = self.rng.coin();
+                let t2 = t[1 + self.rng.below(7) as usize];
+                let key_pt = if mixed { a_pt.add(&t2) } else { a_pt };
+                let key = key_pt.encode();
+                let mut out = (key, [0u8; 64]);
+                for _try in 0..16 {
+                    let r = refmodel::Sc::from_bytes_mod_order(&self.rng.arr32());
+                    let t1 = t[1 + self.rng.below(7) as usize];
+                    let rp = b.mul_le(&r.to_bytes()).add(&t1);
+                    let rb = rp.encode();
+                    let k = challenge(&rb, &key, &hash_in(&m));
+                    let s = k.mul(&a_sc).add(&r);
+                    let mut sg = [0u8; 64];
+                    sg[..32].copy_from_slice(&rb);
+                    sg[32..].copy_from_slice(&s.to_bytes());
+                    out = (key, sg);
+                    // [S]B - [k]A' = [r]B - [k]T2 ; equals R' iff -[k]T2 = T1
+                    if mixed && t2.mul_le(&k.to_bytes()).neg() == t1 {
+                        bump(&mut self.c, "probe:byz_torsion_R_cancelled_by_key");
+                        break;
+                    }
+                }
+                out
+            }
+            5 => {
+                // non-canonical R encodings: never acceptable because the recomputed R is canonical
+                bump(&mut self.c, "fault:byz_noncanonical_R");
+                let j = [0usize, 2, 4, 6][self.rng.below(4) as usize];
+                let key = t[self.rng.below(8) as usize].encode();
+                let mut rb = if t[j].y.0.lt(&refmodel::U256::from_u64(19)) { dict::p_plus(t[j].y.0 .0[0]) } else { t[j].encode() };
+                if t[j].x.is_zero() && self.rng.coin() {
+                    rb[31] |= 0x80;
+                }
+                let mut sg = [0u8; 64];
+                sg[..32].copy_from_slice(&rb);
+                (key, sg)
+            }
+            _ => {
+                // honest signature, then S shifted by a multiple of l (legacy builds accept S + l below 2^253)
+                bump(&mut self.c, "fault:byz_S_plus_l");
+                let key = a_pt.encode();
+                let mut sg = eddsa::sign_expanded(&mut RealSha512, &a_sc, &prefix, &key, &hash_in(&m), ctx.as_deref());
+                let s = refmodel::U256::from_le_bytes(&arr32(&sg[32..]));
+                let jmax = if self.rng.coin() { 1 } else { 15 };
+                let j = 1 + self.rng.below(jmax);
+                let (jl, hi) = sc::l().mul_small(j);
+                let (tt, carry) = s.add_carry(&jl);
+                if hi == 0 && !carry {
+                    sg[32..].copy_from_slice(&tt.to_le_bytes());
+                    if tt.to_le_bytes()[31] & 224 == 0 {
+                        bump(&mut self.c, "probe:S_plus_l_below_2^253");
+                    }
+                }
+                (key, sg)
+            }
+        };
+        // deliver to both a lenient and a strict verifier (and the hazmat / wrapper paths)
+        let modes: &[u8] = if prehashed { &[3, 4, 6, 8] } else { &[0, 2, 5, 1] };
+        let n = 2 + self.rng.below(2) as usize;
+        for i in 0..n {
+            let mode = modes[i % modes.len()];
+            self.send(Msg::Triple { mode, key: key.to_vec(), m: m.clone(), sig: sig.to_vec(), ctx: ctx.clone(), chosen: None });
+        }
+        // ChosenDigest: the adversary picks the challenge outright (digest-generic hazmat API only)
+        if !prehashed && self.rng.chance(1, 3) {
+            bump(&mut self.c, "fault:byz_chosen_challenge");
+            let mut chosen = [0u8; 64];
+            let k = match self.rng.below(3) {
+                0 => 0u8,
+                1 => 8,
+                _ => 1,
+            };
+            chosen[0] = k;
+            // S = r, R = [r]B - [k]A: accepted by construction for any decodable key
+            if let Some(a) = Pt::decode(&key) {
+                let r = refmodel::Sc::from_bytes_mod_order(&self.rng.arr32());
+                let rp = b.mul_le(&r.to_bytes()).sub(&a.mul_le(&[k]));
+                let mut sg = [0u8; 64];
+                sg[..32].copy_from_slice(&rp.encode());
+                sg[32..].copy_from_slice(&r.to_bytes());
+                self.send(Msg::Triple { mode: 7, key: key.to_vec(), m: m.clone(), sig: sg.to_vec(), ctx: None, chosen: Some(chosen) });
+            }
+        }
+        if !prehashed && self.rng.chance(1, 3) {
+            let q = self.rng.below(2) as u8;
+            self.send(Msg::Entry { q, key: key.to_vec(), m, sig: sig.to_vec() });
+        }
+    }
+
+    // ------------------------------------------------------------ batch flows
+    fn flush(&mut self, q: u8, clear: bool) {
+        let d = self.disp();
+        let var = self.rng.below(5) as u8;
+        let n = 64u16;
+        let arg: Vec<u16> = match var {
+            2 => {
+                let k = self.rng.below(12) as usize;
+                (0..k).map(|_| self.rng.below(400) as u16).collect()
+            }
+            3 => vec![self.rng.below(400) as u16],
+            4 => {
+                bump(&mut self.c, "fault:batch_mismatched_lengths");
+                (0..3).map(|_| self.rng.below(n as u64) as u16).collect()
+            }
+            _ => vec![],
+        };
+        bump(&mut self.c, &format!("probe:batch_flush_variant_{}", var));
+        self.emit(Step::BFlush { q, var, arg, d, clear });
+    }
+
+    fn batch_scenario(&mut self) {
+        let sizes_q: [(usize, u32); 13] = [(0, 3), (1, 6), (2, 8), (3, 8), (5, 8), (8, 8), (16, 6), (32, 4), (64, 3), (93, 1), (94, 2), (95, 2), (96, 1)];
+        let sizes_t: [(usize, u32); 5] = [(128, 2), (249, 1), (250, 1), (399, 1), (400, 1)];
+        let mut sizes = sizes_q.to_vec();
+        if self.thorough {
+            sizes.extend_from_slice(&sizes_t);
+        }
+        let w: Vec<u32> = sizes.iter().map(|x| x.1).collect();
+        let n = sizes[self.rng.weighted(&w)].0;
+        bump(&mut self.c, &format!("probe:batch_n={}", n));
+        let q = 2 + self.rng.below(2) as u8;
+        let nsign = 1 + self.rng.below(5) as usize;
+        let seeds: Vec<[u8; 32]> = (0..nsign).map(|_| self.rng.arr32()).collect();
+        let pubs: Vec<[u8; 32]> = seeds.iter().map(eddsa::public_key).collect();
+        let mut entries: Vec<(Vec<u8>, Vec<u8>, Vec<u8>)> = Vec::with_capacity(n);
+        for _ in 0..n {
+            let i = self.rng.below(nsign as u64) as usize;
+            let ml = self.rng.below(48) as usize;
+            let m = self.rng.bytes(ml);
+            let sig = eddsa::sign(&seeds[i], &m);
+            entries.push((pubs[i].to_vec(), m, sig.to_vec()));
+        }
+        // corruption: most stay inside the property's domain
+        if n > 0 && self.faulty() {
+            let pos = match self.rng.below(4) {
+                0 => 0,
+                1 => n - 1,
+                2 => n / 2,
+                _ => self.rng.below(n as u64) as usize,
+            };
+            match self.rng.below(11) {
+                0 | 1 => {
+                    bump(&mut self.c, "fault:batch_msg_changed");
+                    entries[pos].1.push(7);
+                }
+                2 => {
+                    bump(&mut self.c, "fault:batch_S_replaced_canonical");
+                    let s = refmodel::Sc::from_bytes_mod_order(&self.rng.arr32()).to_bytes();
+                    entries[pos].2[32..].copy_from_slice(&s);
+                }
+                3 => {
+                    bump(&mut self.c, "fault:batch_R_replaced_honest");
+                    let r = ed::basepoint().mul_le(&refmodel::Sc::from_bytes_mod_order(&self.rng.arr32()).to_bytes()).encode();
+                    entries[pos].2[..32].copy_from_slice(&r);
+                }
+                4 => {
+                    bump(&mut self.c, "fault:batch_key_replaced_honest");
+                    let k = eddsa::public_key(&self.rng.arr32());
+                    entries[pos].0 = k.to_vec();
+                }
+                5 => {
+                    bump(&mut self.c, "fault:batch_sigs_swapped");
+                    let other = self.rng.below(n as u64) as usize;
+                    let (a, b) = (entries[pos].2.clone(), entries[other].2.clone());
+                    entries[pos].2 = b;
+                    entries[other].2 = a;
+                }
+                6 => {
+                    bump(&mut self.c, "fault:bitflip_R");
+                    let i = self.rng.below(256) as usize;
+                    entries[pos].2[i / 8] ^= 1 << (i % 8);
+                }
+                7 => {
+                    bump(&mut self.c, "fault:S_plus_jl");
+                    let s = refmodel::U256::from_le_bytes(&arr32(&entries[pos].2[32..]));
+                    let (t, _) = s.add_carry(&sc::l());
+                    entries[pos].2[32..].copy_from_slice(&t.to_le_bytes());
+                }
+                8 => {
+                    bump(&mut self.c, "fault:batch_undecodable_R");
+                    loop {
+                        let b = self.rng.arr32();
+                        if Pt::decode(&b).is_none() {
+                            entries[pos].2[..32].copy_from_slice(&b);
+                            break;
+                        }
+                    }
+                }
+                9 => {
+                    bump(&mut self.c, "fault:key_plus_torsion");
+                    if let Some(a) = Pt::decode(&arr32(&entries[pos].0)) {
+                        entries[pos].0 = a.add(&ed::torsion()[1 + self.rng.below(7) as usize]).encode().to_vec();
+                    }
+                }
+                _ => {
+                    bump(&mut self.c, "fault:byz_small_order_key");
+                    entries[pos].0 = ed::torsion()[self.rng.below(8) as usize].encode().to_vec();
+                }
+            }
+        }
+        for (key, m, sig) in entries {
+            // large batches are handed over directly; small ones travel the lossy network
+            if n <= 16 {
+                self.send(Msg::Entry { q, key, m, sig });
+            } else {
+                self.post(1, Msg::Entry { q, key, m, sig });
+            }
+        }
+        self.pump(usize::MAX);
+        let nfl = 1 + self.rng.below(3);
+        for i in 0..nfl {
+            self.flush(q, i + 1 == nfl);
+        }
+    }
+
+    // ------------------------------------------------------------ X25519 flows
+    fn x_scenario(&mut self) {
+        let np = 2 + self.rng.below(3) as u8;
+        for p in 0..np {
+            let fl = self.rng.below(7) as u8;
+            let rng = self.rng_spec();
+            let o = self.emit(Step::XKey { p, fl, rng });
+            self.xpubs[p as usize] = o.as_ref().and_then(|o| obs_get(o, "pub")).map(|v| arr32(v));
+            bump(&mut self.c, &format!("probe:x_flavour_{}", fl));
+        }
+        for p in 0..np {
+            for q in 0..np {
+                if p == q {
+                    continue;
+                }
+                if let Some(pk) = self.xpubs[p as usize] {
+                    let faulty = self.faulty() && self.rng.coin();
+                    let bytes = dict::montgomery_wire(&mut self.rng, pk, faulty, &mut self.c);
+                    self.send(Msg::Pub { from: p, to: q, bytes, honest: bytes == pk });
+                }
+            }
+        }
+    }
+
+    fn montgomery_extras(&mut self) {
+        let u_hon = {
+            let p = dict::random_point(&mut self.rng);
+            p.to_montgomery_u().to_bytes()
+        };
+        let faulty = self.faulty() || self.rng.chance(1, 3);
+        let u = dict::montgomery_wire(&mut self.rng, u_hon, faulty, &mut self.c);
+        match self.rng.below(7) {
+            0 => {
+                let k = self.rng.arr32();
+                self.emit(Step::XRaw { k: B(k.to_vec()), u: B(u.to_vec()) });
+            }
+            1 => {
+                let s = dict::scalar(&mut self.rng, true, &mut self.c);
+                self.emit(Step::MMul { u: B(u.to_vec()), s });
+            }
+            2 => {
+                let nbytes = self.rng.below(40) as usize;
+                let mut bits = self.rng.bytes(nbytes);
+                match self.rng.below(4) {
+                    0 => bits.iter_mut().for_each(|b| *b = 0xff),
+                    1 => {
+                        // leading zeros
+                        for b in bits.iter_mut().take(nbytes / 2) {
+                            *b = 0
+                        }
+                    }
+                    _ => {}
+                }
+                let n = if nbytes == 0 { 0 } else { self.rng.below(nbytes as u64 * 8 + 1) as u16 };
+                bump(&mut self.c, if n == 0 { "probe:ladder_zero_bits" } else { "probe:ladder_bits" });
+                self.emit(Step::MBits { u: B(u.to_vec()), bits: B(bits), n });
+            }
+            3 => {
+                let sign = self.rng.below(2) as u8;
+                self.emit(Step::MToEd { u: B(u.to_vec()), sign });
+            }
+            4 => {
+                // equality / hashing modulo p: a value against its non-canonical twin, or an unrelated one
+                let a = u;
+                let b = match self.rng.below(3) {
+                    0 => {
+                        let f = refmodel::fp::Fp::from_bytes(&a);
+                        let (t, carry) = f.0.add_carry(&refmodel::fp::P);
+                        if !carry && t.to_le_bytes()[31] & 0x80 == 0 {
+                            bump(&mut self.c, "probe:montgomery_noncanonical_twin");
+                            t.to_le_bytes()
+                        } else {
+                            let mut x = a;
+                            x[31] ^= 0x80;
+                            x
+                        }
+                    }
+                    1 => {
+                        let mut x = a;
+                        x[31] ^= 0x80;
+                        x
+                    }
+                    _ => self.rng.arr32(),
+                };
+                self.emit(Step::MEq { a: B(a.to_vec()), b: B(b.to_vec()) });
+            }
+            5 => {
+                // Edwards -> Montgomery on a wire point (possibly Byzantine), then back
+                let faulty = self.faulty();
+                let bytes = dict::edwards_wire(&mut self.rng, None, faulty, &mut self.c);
+                if bytes.len() == 32 {
+                    self.emit(Step::Dec { g: 0, dst: 0, b: B(bytes), via: 0 });
+                    self.emit(Step::ToMont { a: 0 });
+                }
+            }
+            _ => {
+                let k = self.rng.arr32();
+                let d = self.disp();
+                let rp = dict::random_point(&mut self.rng).encode().to_vec();
+                self.emit(Step::Dec { g: 0, dst: 1, b: B(rp), via: 0 });
+                let a = if self.rng.coin() { Some(1) } else { None };
+                self.emit(Step::Clamp { dst: 2, a, k: B(k.to_vec()), d });
+                self.emit(Step::ToMont { a: 2 });
+            }
+        }
+    }
+
+    // ------------------------------------------------------------ total decoders (C15)
+    fn decoders(&mut self) {
+        let tys = [0u8, 1, 2, 3, 4, 5, 6, 7, 8, 10, 15, 19];
+        let ty = tys[self.rng.below(tys.len() as u64) as usize];
+        let natural = match ty {
+            0 | 1 | 5 | 6 => 32,
+            2 | 4 | 7 | 8 | 15 | 19 => 64,
+            _ => self.rng.below(100) as usize,
+        };
+        let mut b = self.rng.bytes(natural);
+        if self.faulty() || self.rng.chance(1, 4) {
+            match self.rng.below(6) {
+                0 => {
+                    bump(&mut self.c, "fault:truncate");
+                    b.truncate(self.rng.below(natural as u64 + 1) as usize);
+                }
+                1 => {
+                    bump(&mut self.c, "fault:extend");
+                    let extra = 1 + self.rng.below(17) as usize;
+                    b.extend(self.rng.bytes(extra));
+                }
+                2 => {
+                    bump(&mut self.c, "fault:all_ones");
+                    b.iter_mut().for_each(|x| *x = 0xff);
+                }
+                3 => {
+                    bump(&mut self.c, "fault:all_zero");
+                    b.iter_mut().for_each(|x| *x = 0);
+                }
+                4 => {
+                    bump(&mut self.c, "fault:scalar_near_l");
+                    if b.len() >= 32 {
+                        let l = sc::l();
+                        let v = match self.rng.below(3) {
+                            0 => l,
+                            1 => l.sub_borrow(&refmodel::U256::ONE).0,
+                            _ => l.add_carry(&refmodel::U256::ONE).0,
+                        };
+                        b[..32].copy_from_slice(&v.to_le_bytes());
+                    }
+                }
+                _ => {
+                    bump(&mut self.c, "fault:empty");
+                    b.clear();
+                }
+            }
+        }
+        // fixed-size entry points take arrays: pad / cut happens in the executor; slices keep their length
+        self.emit(Step::Decode { ty, b: B(b) });
+    }
+}
+
+pub fn generate(seed: u64, run: u64, focus: &str, thorough: bool) -> Plan {
+    let fam = 0x77_69_72_65 ^ simcore::fnv1a(focus.as_bytes());
+    let mut rng = Prng::new(simcore::run_seed(seed, fam, run));
+    let max_steps = if rng.chance(1, 4) { rng.range(4, 20) } else { rng.range(20, 160) } as usize;
+    let fault_pct = *rng.pick(&[0u64, 0, 5, 15, 30]);
+    let disp_policy = rng.below(5);
+    let mut w = W {
+        rng,
+        m: ModelW::new(),
+        steps: Vec::new(),
+        c: Counters::new(),
+        fault_pct,
+        disp_policy,
+        thorough,
+        focus,
+        heap: BinaryHeap::new(),
+        msgs: Vec::new(),
+        now: 0,
+        seen_triples: Vec::new(),
+        signer_pubs: vec![None; 8],
+        signer_seeds: vec![None; 8],
+        xpubs: vec![None; 8],
+    };
+    bump(&mut w.c, if fault_pct == 0 { "runs:fault_free" } else { "runs:fault_injecting" });
+    bump(&mut w.c, &format!("swarm:dispatch_policy_{}", disp_policy));
+    let _ = w.focus;
+
+    // activity weights: [x25519 handshake, montgomery extras, signing request, byzantine signer, batch scenario, decoders, new signer]
+    let weights: [u32; 7] = match focus {
+        "C07" => [30, 60, 2, 0, 0, 3, 1],
+        "C08" => [0, 0, 70, 5, 3, 2, 10],
+        "C09" => [0, 0, 20, 70, 2, 2, 6],
+        "C13" => [0, 0, 10, 8, 70, 0, 6],
+        "C15" => [8, 20, 10, 12, 6, 40, 4],
+        _ => [10, 15, 25, 20, 8, 12, 5],
+    };
+    let nsigners = 1 + w.rng.below(3) as u8;
+    if weights[2] > 0 || weights[3] > 0 {
+        for s in 0..nsigners {
+            w.new_signer(s);
+        }
+    }
+    let mut guard = 0;
+    while w.steps.len() < max_steps && guard < 10_000 {
+        guard += 1;
+        match w.rng.weighted(&weights) {
+            0 => w.x_scenario(),
+            1 => w.montgomery_extras(),
+            2 => {
+                let s = w.rng.below(nsigners as u64) as u8;
+                let ml = w.msg_len();
+                let m = w.rng.bytes(ml);
+                let mode = w.rng.below(6) as u8;
+                let ctx = if matches!(mode, 2 | 3 | 5) { w.ctx_choice() } else { None };
+                w.send(Msg::SignReq { s, m, mode, ctx });
+                if w.rng.chance(1, 6) {
+                    let s2 = w.rng.below(nsigners as u64) as u8;
+                    w.emit(Step::SConv { s: s2 });
+                }
+            }
+            3 => w.byzantine(),
+            4 => w.batch_scenario(),
+            5 => w.decoders(),
+            _ => {
+                let s = w.rng.below(nsigners as u64) as u8;
+                w.new_signer(s);
+            }
+        }
+        // let the network run for a while; some messages stay in flight across activities
+        if w.rng.chance(2, 3) {
+            w.pump(max_steps);
+        }
+    }
+    // faults stop; everything still in flight is delivered (bounded: the queue only shrinks)
+    w.pump(max_steps + 64);
+    for q in 0..2u8 {
+        w.flush(q, true);
+    }
+    let ticks = w.now;
+    Plan { family: "wire".into(), focus: focus.into(), seed, run, faults: w.c, ticks, steps: w.steps }
 }
